@@ -152,11 +152,29 @@ theorem evalOK_restrict (hR : Restr g S IM)
     rw [hnil] at this
     exact hlive _ h1 hov this.symm
 
-/-- no two distinct positions of the domain have the same hash (the `NoCollision` hypothesis, on the domain) -/
+/-- no two distinct positions of the domain have the same hash (the `NoCollision` hypothesis in its strongest form, on
+the domain; not satisfiable for Tak, whose hash ignores the ply counter: see `HashOKOn`) -/
 def HashInjOn (g : Game P M) (S0 : P → Prop) : Prop := ∀ p q, S0 p → S0 q → g.hash p = g.hash q → p = q
 
-theorem hashInj_restrict (h : HashInjOn g (S 0)) : HashInj (g.restrict (S 0) IM) :=
-  fun p q hpq => Subtype.ext (h _ _ p.property q.property hpq)
+/-- the `NoCollision` hypothesis in the form the table theorems use it, on the domain: two positions of the domain with
+the same hash are alike for the three-valued verdicts — at every depth their negamax values lie on the same side of
+both thresholds.  (For Tak: true when equal hashes mean equal boards and the same side to move, since positions that
+differ in the ply counter only have the same moves, the same game end and evaluations of the same class.) -/
+def HashOKOn (g : Game P M) (S0 : P → Prop) : Prop :=
+  ∀ p q, S0 p → S0 q → g.hash p = g.hash q → ∀ d,
+    (negamax g d p > Facts.winThreshold ↔ negamax g d q > Facts.winThreshold) ∧
+    (negamax g d p < -Facts.winThreshold ↔ negamax g d q < -Facts.winThreshold)
+
+theorem HashInjOn.ok {S0 : P → Prop} (h : HashInjOn g S0) : HashOKOn g S0 := by
+  intro p q hp hq e d
+  rw [h p q hp hq e]
+  exact ⟨Iff.rfl, Iff.rfl⟩
+
+theorem hashOK_restrict (hR : Restr g S IM) (hconst : ∀ k j p, S k p → S j p) (h : HashOKOn g (S 0)) :
+    HashOK (g.restrict (S 0) IM) := by
+  intro p q hpq d
+  rw [negamax_restrict hR d p (hconst _ _ _ p.property), negamax_restrict hR d q (hconst _ _ _ q.property)]
+  exact h _ _ p.property q.property hpq d
 
 end
 end Search
